@@ -434,20 +434,23 @@ def failed_obligation_keys(meta, f):
 # Bounded stand-ins for ASSUMED callees (labelled bounded, never counted as proved): twin family,
 # the known-finding obligation id, and the committed list of case numbers known to fail.
 BOUNDED = {
-    "C04": [dict(family="front", args_quick=["--depth", "1"], args_thorough=["--depth", "2"],
+    "C04": [dict(family="front", args_quick=["--depth", "1"], args_thorough=["--depth", "2", "--offset", "{seed}"],
                  obligation="frontend/bounded-standin/front.extract",
                  known_cases="contracts/known_front_cases.txt",
-                 what="the frontend, printer and glue (swc ASTs, trait objects, symbol tables: outside Verus' dialect) through the public entry point beff_core::extract: every program `type X = E; parse.buildParsers<{X: X}>()` for E built from 35 leaf types (basic types, literals, named object/union/tuple/recursive/generic types) with one type constructor out of 45 unary and 17 binary ones (arrays, tuples, objects, mapped and conditional types, keyof, indexed access, Record/Partial/Pick/Omit/Exclude/Extract, template literals, ...) - 22656 programs in the quick tier; a second constructor on top, thinned, in the thorough tier - 817586 programs; plus 53 hand-written + 168 generated same-name layouts multi-file / malformed / circular projects. Checked per program, as the property states it: the call returns within 20 s, does not panic or crash the process, returns generated code (emit_code Ok and non-empty) or at least one diagnostic, every diagnostic names a file of the project and a line/column/byte range inside it, and the emitted module defines every named runtype exactly once, refers only to named runtypes it defines and has a buildParsersInput entry for every requested name. NOT checked: that the emitted module loads in Node (no TypeScript compiler for the client runtime offline)"),
+                 what="the frontend, printer and glue (swc ASTs, trait objects, symbol tables: outside Verus' dialect) through the public entry point beff_core::extract: every program `type X = E; parse.buildParsers<{X: X}>()` for E built from 36 leaf types (basic types, literals, named object/union/tuple/recursive/generic types) with one type constructor out of 45 unary and 17 binary ones (arrays, tuples, objects, mapped and conditional types, keyof, indexed access, Record/Partial/Pick/Omit/Exclude/Extract, template literals, ...) - 23949 programs in the quick tier; a second constructor on top of a thinned subset (which one depends on VERIF_SEED) in the thorough tier - 882252 programs; plus 57 hand-written + 168 generated same-name layouts multi-file / malformed / circular projects. Checked per program, as the property states it: the call returns within 20 s, does not panic or crash the process, returns generated code (emit_code Ok and non-empty) or at least one diagnostic, every diagnostic names a file of the project and a line/column/byte range inside it, and the emitted module defines every named runtype exactly once, refers only to named runtypes it defines and has a buildParsersInput entry for every requested name. NOT checked: that the emitted module loads in Node (no TypeScript compiler for the client runtime offline)"),
             dict(family="refspanic", obligation="conversion/bounded-standin/refs.no_panic",
                  known_cases="contracts/known_refspanic_cases.txt",
                  what="convert_to_sem_type + is_subtype on named, possibly recursive types (not under contract): the 23769 questions of the `refs` family (see C05), a case fails only when the real code PANICS")],
     "C06": [dict(family="proper", obligation="proper_subtype/bounded-standin/proper.sub_vec",
                  known_cases="contracts/known_proper_cases.txt",
                  what="sub_vec_union / sub_vec_intersect / sub_vec_diff (assumed in C06; Verus rejects their labelled `continue`): reached through the public ProperSubtypeOps on all same-tag pairs of 52 proper subtypes (number lists over {1,2,3}, string lists over {a,b,c}, two typed-array kinds, allowed and excluded, booleans, diagrams), membership compared for every literal value")],
-    "C07": [dict(family="front", args_quick=["--depth", "1"], args_thorough=["--depth", "2"],
+    "C07": [dict(family="front", args_quick=["--depth", "1"], args_thorough=["--depth", "2", "--offset", "{seed}"],
                  obligation="frontend/bounded-standin/front.extract",
                  known_cases="contracts/known_front_cases.txt",
-                 what="`contains only constructs the code generator can print`, end to end: the generated programs of C04's frontend stand-in (Exclude / Extract / keyof / indexed access / conditional types over 35 leaf types, see evidence/C04.json) must compile to a module: emit_code() neither panics nor fails, and no named runtype is defined twice"),
+                 what="`contains only constructs the code generator can print`, end to end: the generated programs of C04's frontend stand-in (Exclude / Extract / keyof / indexed access / conditional types over 36 leaf types, see evidence/C04.json) must compile to a module: emit_code() neither panics nor fails, and no named runtype is defined twice"),
+            dict(family="keyof", obligation="access/bounded-standin/keyof.keyof",
+                 known_cases="contracts/known_keyof_cases.txt",
+                 what="keyof (not under contract): keyof A, keyof (A & B), keyof (A | B) for object atoms whose declared keys are the non-empty subsets of {a, b, c}, 147 questions, against the declared keys / their union / their intersection"),
             dict(family="listidx", obligation="access/bounded-standin/listidx.list_indexed_access",
                  known_cases="contracts/known_listidx_cases.txt",
                  what="list_indexed_access (its termination and panic-freedom are proved in unit U9, its RESULT is not under contract): T[i] and T[i | j] for tuple types with a prefix up to length 3 over {string, number, boolean} and an optional rest, i, j in 0..=4, 1800 questions, against the item types at the indices"),
@@ -462,7 +465,7 @@ BOUNDED = {
                  what="the same decider on a larger universe: prefixes up to length 3 over {string, number}, optional rest; `a <: b | c` for all 45^3 triples and `a <: b | c | d` with thinned negatives; item types string | number as well, prefixes up to length 2 (52 shapes, all triples); the negatives converted before the positive; 483235 questions (three negatives in every order over the union-item shapes too), against brute force over all lists of length <= 5"),
             dict(family="idxsig", obligation="mapping_dnf/bounded-standin/idxsig.dnf_mapping_is_empty",
                  known_cases="contracts/known_idxsig_cases.txt",
-                 what="the object decider on index signatures with a pattern key domain: `S(v) <: B` for the 19 exact objects over the keys a, xa, 1 with values 1 / \"s\" against {[k: K]: T}, K in {string, `x${string}`}, T in {string, number}, and unions / intersections of two of them (refused intersections skipped); oracle: every property whose key lies in K has a value in T; then the same targets against LEFT types that are index signatures themselves ({[k: K]: T'}, T' also string | number), brute force over the 27 objects with the keys a, xa, 1; then three members on the right and a declared property next to the left signature; 1012 questions"),
+                 what="the object decider on index signatures with a pattern key domain: `S(v) <: B` for the 19 exact objects over the keys a, xa, 1 with values 1 / \"s\" against {[k: K]: T}, K in {string, `x${string}`}, T in {string, number}, and unions / intersections of two of them (refused intersections skipped); oracle: every property whose key lies in K has a value in T; then the same targets against LEFT types that are index signatures themselves ({[k: K]: T'}, T' also string | number), brute force over the 27 objects with the keys a, xa, 1; then three members on the right and a declared property next to the left signature; then an intersection of a signature and a declared-property object on the left, in both conversion orders; 1028 questions"),
             dict(family="mapneg", obligation="mapping_dnf/bounded-standin/mapneg.dnf_mapping_is_empty",
                  known_cases="contracts/known_mapneg_cases.txt",
                  what="dnf_mapping_is_empty / check_mapping_empty (assumed per-clause steps of the object decider): `A <: B | C` for objects with properties a, b (absent / required / optional, string or number) and an optional index signature over `string` or over the keys \"a\" | \"c\" (TypeScript-valid shapes only), against brute force over the 27 objects with keys a, b, c; exact reading on the left, structural on the right"),
@@ -478,7 +481,7 @@ BOUNDED = {
 }
 
 
-def run_bounded(pid, known, tier="quick"):
+def run_bounded(pid, known, tier="quick", seed=0):
     """-> (violations, known_lines, evidence_rows, notes)"""
     rows, viols, klines, notes = [], [], [], []
     specs = BOUNDED.get(pid, [])
@@ -492,7 +495,7 @@ def run_bounded(pid, known, tier="quick"):
     if err:
         return viols, klines, rows, ["bounded stand-ins not run: the twin does not build against the current tree: " + err[-300:]]
     for sp in specs:
-        fam_args = [sp["family"]] + sp.get("args_thorough" if tier == "thorough" else "args_quick", [])
+        fam_args = [sp["family"]] + [a.replace("{seed}", str(seed or 0)) for a in sp.get("args_thorough" if tier == "thorough" else "args_quick", [])]
         rc, out, stderr = twin.run(fam_args)
         if not out:
             notes.append("bounded stand-in %s produced no result (rc %s): %s" % (sp["family"], rc, stderr[-300:]))
@@ -691,7 +694,7 @@ def check(pid, tier, seed, rebaseline=False):
     pool.shutdown()
     bounded_rows = []
     if pid in BOUNDED and not rebaseline:
-        bv, bk, bounded_rows, bn = run_bounded(pid, known, tier)
+        bv, bk, bounded_rows, bn = run_bounded(pid, known, tier, seed)
         violations += bv
         notes += bn
         for k, f, txt in bk:
